@@ -230,6 +230,8 @@ fn generate_e(seed: u64, quick: bool) -> Value {
         "crlf": g.rng.chance(1, 4),
         "final_newline": g.rng.chance(2, 3),
         "one_line_per_form": g.rng.chance(2, 3),
+        "split_forms": g.rng.chance(1, 3),
+        "tail": *g.rng.pick(&["", "", "", "comment", "blanks"]),
         "file_fault": file_fault,
         "cut": g.rng.below(100_000),
         "cwd": cwd,
@@ -240,13 +242,49 @@ fn generate_e(seed: u64, quick: bool) -> Value {
 fn program_text(case: &Value) -> String {
     let nl = if case["crlf"].as_bool().unwrap_or(false) { "\r\n" } else { "\n" };
     let sep = if case["one_line_per_form"].as_bool().unwrap_or(true) { nl } else { " " };
+    let split = case["split_forms"].as_bool().unwrap_or(false);
+    // layout choices are a function of the case alone
+    let mut lrng = Rng::new(case["seed"].as_u64().unwrap_or(0) ^ 0x1a40_77);
     let mut forms: Vec<String> = vec![];
     for it in case["items"].as_array().cloned().unwrap_or_default() {
         for f in it["forms"].as_array().cloned().unwrap_or_default() {
-            forms.push(f.as_str().unwrap_or("").to_string());
+            let f = f.as_str().unwrap_or("").to_string();
+            // deliberately malformed forms keep their spelling
+            let balanced = crate::engine_f::tokens(&f).iter().fold(0i32, |d, t| d + match t.as_str() { "(" | "#(" => 1, ")" => -1, _ => 0 }) == 0;
+            if split && balanced && !f.contains("#<") {
+                // the form laid out over several lines, broken at inter-token positions
+                let toks = crate::engine_f::tokens(&f);
+                let mut out = String::new();
+                for (i, t) in toks.iter().enumerate() {
+                    if i > 0 && toks[i - 1] != "'" {
+                        out.push_str(match lrng.upto(6) {
+                            0 => nl,
+                            1 => "\t",
+                            2 => "  ",
+                            _ => " ",
+                        });
+                    }
+                    out.push_str(t);
+                }
+                if lrng.chance(1, 6) {
+                    out.push_str(" ; comment (after a form");
+                    out.push_str(nl);
+                }
+                forms.push(out);
+            } else {
+                forms.push(f);
+            }
         }
     }
     let mut text = forms.join(sep);
+    match case["tail"].as_str().unwrap_or("") {
+        "comment" => {
+            text.push_str(sep);
+            text.push_str("; the file ends in a comment (without a line end");
+        }
+        "blanks" => text.push_str("  \t "),
+        _ => {}
+    }
     if case["final_newline"].as_bool().unwrap_or(true) {
         text.push_str(nl);
     }
@@ -659,6 +697,8 @@ impl Engine for EngineE {
             ("crlf", json!(false)),
             ("final_newline", json!(true)),
             ("one_line_per_form", json!(true)),
+            ("split_forms", json!(false)),
+            ("tail", json!("")),
             ("file_fault", json!("none")),
             ("cwd", json!("progdir")),
             ("spelling", json!("absolute")),
